@@ -394,4 +394,52 @@ def run(tier='quick', seed=0, jobs=1):
                     fx.add_failure(row_11, CL_S11, 'raises', args, rec['error'])
     except BaseException:   # noqa
         fx.add_error(row_11, traceback.format_exc()[-2000:])
-    return [fx.finish_row(row_s), fx.finish_row(row_e), fx.finish_row(row_11)]
+    return [fx.finish_row(row_s), fx.finish_row(row_e), fx.finish_row(row_11), row_direct(tier, seed)]
+
+
+CL_DIRECT = ("the mapping stage called as a library function (election_runner.run_type_assignment_on_h5ad), with and without a "
+             "results buffer directory, 1 to 3 workers: one record per cell of the query, in the order of its obs index, "
+             "every level present")
+
+
+def row_direct(tier, seed):
+    """the mapping stage as a library call: results gathered through a Manager list (no buffer
+    directory) or through per-chunk files (buffer directory), with 1, 2, 3 workers"""
+    import tempfile
+    from bounded import c14
+    row = fx.new_row('cell_type_mapper.type_assignment.election_runner.run_type_assignment_on_h5ad', 'seeded-random',
+                     "world of 6 leaves / 30 genes / 20 query cells; n_processors {1,2,3} x chunk_size {3,7,50} x results buffer "
+                     "directory {none, given}", [CL_DIRECT])
+    try:
+        with fx.scratch() as d:
+            world = c14.make_world(str(d), int(seed) + 31)
+            ids = list(world.query_cell_ids)
+            levels = list(world.hierarchy)
+            for nproc in (1, 2, 3):
+                for chunk in (3, 7, 50):
+                    for buffered in (False, True):
+                        args = dict(n_processors=nproc, chunk_size=chunk, results_output_path='a fresh directory' if buffered else None)
+                        row['cases'] += 1
+                        scr = tempfile.mkdtemp(dir=str(d), prefix='scratch_')
+                        rop = tempfile.mkdtemp(dir=str(d), prefix='buffer_') if buffered else None
+                        try:
+                            with fx.quiet():
+                                res = c14.run_election_direct(world, nproc, scr, results_output_path=rop,
+                                                              chunk_size=chunk, bootstrap_iteration=3)
+                        except Exception as e:   # noqa
+                            if not fx.escaped_from_package(e):
+                                raise
+                            row['accepted'] += 1
+                            fx.add_failure(row, CL_DIRECT, 'raises', args, fx.package_error_text(e, 300))
+                            continue
+                        row['accepted'] += 1
+                        fx.note_case(row, args)
+                        got = [r.get('cell_id') for r in res]
+                        if got != ids:
+                            fx.add_failure(row, CL_DIRECT, 'ensures', args,
+                                           f"{len(got)} records; order {got[:8]}... expected {ids[:8]}...")
+                        elif any(lv not in r or 'assignment' not in r[lv] for r in res for lv in levels):
+                            fx.add_failure(row, CL_DIRECT, 'ensures', args, 'a record lacks a level')
+    except BaseException:   # noqa
+        fx.add_error(row, traceback.format_exc()[-1500:])
+    return fx.finish_row(row)
